@@ -117,7 +117,8 @@ def _notes_by_zid(text):
     r = zo.compile_text(text, name="cmp.zo")
     if r["exc"] or r["nsyntax"] or r["has_errors"]:
         return None, r
-    return {n["zid"]: n for n in r["notes"]}, r
+    # a note that lost its ZID still has to show up in the comparison
+    return {(n["zid"] or f"<no ZID, line {n['line']}>"): n for n in r["notes"]}, r
 
 
 def _strip_added(body_after: str, body_before: str) -> bool:
